@@ -333,11 +333,14 @@ pub fn c07_enum_spec(rs: u64, unit: u64) -> RunSpec {
 
 /// Initial capacities 0..=64 enumerated, each followed by a seeded churn history and refills.
 pub fn c12_enum_spec(rs: u64, unit: u64) -> RunSpec {
-    let cap = (unit % 65) as u32;
+    let extra = [100u32, 127, 128, 129, 255, 256, 257, 511, 512, 513, 1000, 1023, 1024, 1025, 4096, 65535, 65536, 65537];
+    let k = (unit % (65 + extra.len() as u64)) as usize;
+    let cap = if k < 65 { k as u32 } else { extra[k - 65] };
     let cfg = build_cfg();
     let sh = shape_any("WA");
     let mut s = gen_spec("C12", rs, &sh, cfg);
-    s.caps = vec![cap; sh.narch];
+    // all archetypes for small capacities; one archetype for the large ones
+    s.caps = if cap <= 64 { vec![cap; sh.narch] } else { (0..sh.narch).map(|i| if i as u64 == (unit / 83) % sh.narch as u64 { cap } else { (unit % 5) as u32 }).collect() };
     s
 }
 
